@@ -27,6 +27,72 @@ theorem cpKey_restored (o : Oracle) (k : Key) (m : Obj) (pub : GoPub) (priv : Go
     | some cs => cases cs <;> simp_all
   simp [restored, toCP, CP.key, e1, e2, e3, e4]
 
+/-! ## MarshalJSON drops the registered names from its copy of Raw (7805e88) -/
+
+/-- the regenerated list `registeredMembers` of jwk/jwk.go names exactly the members Spec.IANA registers, which are
+    exactly the names the jwk encoders write and the names the jwk decoders read (string literals in jwk/*.go) -/
+theorem registered_members_complete :
+    (∀ n, n ∈ Gen.JwkMembers.registeredMembers ↔ n ∈ registeredMembers) ∧
+    (∀ n, n ∈ Gen.JwkMembers.writtenMembers ↔ n ∈ Gen.JwkMembers.registeredMembers) ∧
+    (∀ n, n ∈ Gen.JwkMembers.readMembers ↔ n ∈ Gen.JwkMembers.registeredMembers) := by
+  have h1 : Gen.JwkMembers.registeredMembers = registeredMembers := by decide
+  have h2 : Gen.JwkMembers.writtenMembers.all (Gen.JwkMembers.registeredMembers.contains ·) = true ∧
+      Gen.JwkMembers.registeredMembers.all (Gen.JwkMembers.writtenMembers.contains ·) = true := by decide
+  have h3 : Gen.JwkMembers.readMembers.all (Gen.JwkMembers.registeredMembers.contains ·) = true ∧
+      Gen.JwkMembers.registeredMembers.all (Gen.JwkMembers.readMembers.contains ·) = true := by decide
+  refine ⟨fun n => by rw [h1], fun n => ⟨fun h => ?_, fun h => ?_⟩, fun n => ⟨fun h => ?_, fun h => ?_⟩⟩
+  · simpa using List.all_eq_true.mp h2.1 n h
+  · simpa using List.all_eq_true.mp h2.2 n h
+  · simpa using List.all_eq_true.mp h3.1 n h
+  · simpa using List.all_eq_true.mp h3.2 n h
+
+theorem lookup_filter_none (raw : Obj) (p : String × Wire → Bool) (n : String) (h : ∀ v, p (n, v) = false) :
+    Wire.lookup n (raw.filter p) = none := by
+  induction raw with
+  | nil => rfl
+  | cons hd t ih =>
+    obtain ⟨k, v⟩ := hd
+    by_cases hp : p (k, v) = true
+    · simp only [List.filter_cons, hp, if_true, Wire.lookup]
+      by_cases hk : n = k
+      · subst hk; rw [h v] at hp; cases hp
+      · simp [hk, ih]
+    · simp [List.filter_cons, hp, ih]
+
+theorem lookup_filter_keep (raw : Obj) (p : String × Wire → Bool) (n : String) (h : ∀ v, p (n, v) = true) :
+    Wire.lookup n (raw.filter p) = Wire.lookup n raw := by
+  induction raw with
+  | nil => rfl
+  | cons hd t ih =>
+    obtain ⟨k, v⟩ := hd
+    by_cases hk : n = k
+    · subst hk; simp [List.filter_cons, h v, Wire.lookup]
+    · by_cases hp : p (k, v) = true <;> simp [List.filter_cons, hp, Wire.lookup, hk, ih]
+
+/-- after the delete loop no registered name is left in the copy of Raw … -/
+theorem dropRegistered_clean (raw : Obj) : Clean (dropRegistered raw) := by
+  intro n hn
+  have h1 : Gen.JwkMembers.registeredMembers = registeredMembers := by decide
+  apply lookup_filter_none
+  intro v
+  simp [h1, hn]
+
+/-- … and every unregistered member is still there -/
+theorem dropRegistered_keeps (raw : Obj) (n : String) (hn : n ∉ registeredMembers) :
+    Wire.lookup n (dropRegistered raw) = Wire.lookup n raw := by
+  have h1 : Gen.JwkMembers.registeredMembers = registeredMembers := by decide
+  apply lookup_filter_keep
+  intro v
+  simp [h1, hn]
+
+/-- the key MarshalJSON encodes: the same key over the cleaned copy of Raw -/
+def cleaned (k : Key) : Key := { k with raw := dropRegistered k.raw }
+
+theorem marshal_eq (k : Key) : marshal k = marshalFrom (cleaned k) := rfl
+
+theorem marshal_thumbKey (k : Key) : marshal (thumbKey k) = marshalFrom (thumbKey k) := by
+  simp [marshal, thumbKey, dropRegistered]
+
 /-- the registered members of the marshalled object are those of the spec encoding -/
 theorem hasMembers_of_registered (o : Oracle) (k : Key) (m : Obj) (mat : KeyMaterial) (hx : k.x5c ≠ some [])
     (h : ∀ name, Wire.lookup name m = Wire.lookup name (specEncode (encS o) (encStdS o) mat (specParams o k) k.raw)) :
